@@ -113,6 +113,7 @@ pub fn run_schedule(cfg: &Config, prefix: &[usize]) -> RunResult {
     let sched = Sched::new(nt, prefix.to_vec(), 4000);
     install(Some(sched.clone()));
     pdf::verif::set_handler(Some(hook));
+    pdf::verif::set_lock_handler(Some(crate::sched::lock_hook));
     let outs: Vec<Mutex<Vec<String>>> = (0..nt).map(|_| Mutex::new(vec![])).collect();
     let after = Mutex::new(String::new());
     macro_rules! body {
@@ -170,6 +171,7 @@ pub fn run_schedule(cfg: &Config, prefix: &[usize]) -> RunResult {
     }
     install(None);
     pdf::verif::set_handler(None);
+    pdf::verif::set_lock_handler(None);
     let g = sched.m.lock().unwrap();
     let after_s = after.lock().unwrap().clone();
     let outs_v: Vec<Vec<String>> = outs.iter().map(|m| m.lock().unwrap().clone()).collect();
@@ -553,9 +555,9 @@ pub fn run(tier: Tier, _seed: u64, tally: &mut Tally) -> CheckMeta {
     CheckMeta {
         prop: "C13",
         level: "model_checking",
-        rule: format!("{} thread programs (2 threads x 1 call for every ordered pair of 6 calls; 2 threads x 2 calls; 3 threads x 1 call; thorough: 2 x 3 calls; a mutually referring pair) x {{shared resolver, resolver per thread}} x {{no caches, instrumented compute-once caches}}; every interleaving at the scheduling points (4 hook points in StorageResolver::get, lock/wait/notify of the instrumented cache, thread start/finish) up to the preemption bound ({}) is executed on real threads under a baton-passing scheduler in worker processes; states = schedules executed, transitions = schedule-tree edges. Non-trivial = at least one non-default scheduling choice; distinct by (program, choice vector). Each answer must equal the call run alone; no panic, no deadlock, no process abort, resolver usable afterwards; failing schedules are replayed and must reproduce.", cfgs.len(), if tier.thorough() { "3 for 2 threads, 2 for 3 threads" } else { "2 for 2 threads, 1 for 3 threads" }),
+        rule: format!("{} thread programs (2 threads x 1 call for every ordered pair of 6 calls; 2 threads x 2 calls; 3 threads x 1 call; thorough: 2 x 3 calls; a mutually referring pair) x {{shared resolver, resolver per thread}} x {{no caches, instrumented compute-once caches}}; every interleaving at the scheduling points (4 hook points in StorageResolver::get, inside each critical section of its guard mutex - which under the feature is a mutex whose blocking the scheduler sees, so a thread can be preempted while it holds the lock and lock / try_lock of the others behave accordingly -, lock/wait/notify of the instrumented cache, thread start/finish) up to the preemption bound ({}) is executed on real threads under a baton-passing scheduler in worker processes; states = schedules executed, transitions = schedule-tree edges. Non-trivial = at least one non-default scheduling choice; distinct by (program, choice vector). Each answer must equal the call run alone; no panic, no deadlock, no process abort, resolver usable afterwards; failing schedules are replayed and must reproduce.", cfgs.len(), if tier.thorough() { "3 for 2 threads, 2 for 3 threads" } else { "2 for 2 threads, 1 for 3 threads" }),
         assumptions: vec![
-            "all shared mutable state reachable from these calls is the guard stack (mutex) and the caches (behind the Cache trait); critical sections of the guard mutex contain no scheduling point".into(),
+            "all shared mutable state reachable from these calls is the guard stack (mutex) and the caches (behind the Cache trait); the guard mutex is replaced by pdf::verif::Mutex (same interface, std mutex inside) in the checked build".into(),
             "VerifCache is a transliteration of globalcache 0.2.4 SyncCache::get (source hash checked at self-check; sequential traces compared with the real SyncCache)".into(),
             "Lazy::load (once_cell) is not in the call alphabet".into(),
         ],
